@@ -154,6 +154,20 @@ def run(case, ctx):
                     return ctx.fail(f"reduction/{f}/vector-and-single-group-aggregate-differ", f"Vector({vals}).{f}() = {red!r}, single-group aggregate {agg!r}")
             if not ok:
                 return ctx.fail(f"reduction/{f}/disagrees", f"Vector({vals}).{f}() = {red!r}, single-group aggregate {agg!r}, reference {want!r}")
+    # a custom function that keeps (returns) the very list it was handed: every group's cell still holds that group's values
+    if case["apply"] and groups:
+        j_ = case["apply"][0][1]
+        ctx.ev()
+        try:
+            rk_ = t.aggregate(over=over_arg, apply={"kept": (vspecs[j_], lambda vals: vals)})
+        except Exception as e:  # noqa: BLE001
+            return ctx.fail(f"apply-keeps-its-argument/raised/{type(e).__name__}", str(e))
+        cells_ = list(rk_.cols()[-1]) if len(rk_.cols()) else []
+        vals_j = case["vals"][j_]["values"]
+        want_ = [[vals_j[i] for i in g[1]] for g in groups]
+        if len(cells_) == len(want_) and any(not isinstance(c_, S.Vector) and [freeze(x) for x in (c_ if isinstance(c_, (list, tuple)) else [c_])] != [freeze(x) for x in w_]
+                                               for c_, w_ in zip(cells_, want_)):
+            return ctx.fail("apply-keeps-its-argument/cells-overwritten", f"groups {want_}: the kept lists read {cells_}")
     if R.snapshot_table(t) != snap:
         return ctx.fail("aggregate/input-modified", "table changed during aggregate")
     # (d) the same call again after a key cell changed to a value hash() cannot tell from the old one
